@@ -28,6 +28,16 @@ def gen_cases(run: Run, n: int):
         g.leak_p = 0.0 if len(cases) % 2 == 0 else 0.15
         ins, outs = g.program()
         cases.append(B.Case(ins, outs, rng.random() < 0.3, {"legal": g.leak_p == 0.0}))
+    # scope-tree skeletons (shared with C04): a value (every 2nd time an initializer) created in one scope and used in others
+    from harness import c04
+    sks = list(c04.enumerate_skeletons(3, 1))
+    step = max(1, len(sks) // 60)
+    for ski, sk in enumerate(sks[rng.randrange(step)::step]):
+        try:
+            ins, outs, legal, extra = c04.build_skeleton(sk, as_init=(ski % 2 == 0))
+        except Exception:  # noqa: BLE001
+            continue
+        cases.append(B.Case(ins, outs, False, {"legal": legal, "skeleton": True}))
     return cases, g.hist
 
 
